@@ -532,9 +532,12 @@ class Interp:
                 for ext in externals:
                     if ext[0] == 'construct':
                         continue
-                    if ext[-1].split('.')[-1] not in PURE_EXTERNALS | {
+                    ext_name = ext[-1].split('.')[-1]
+                    if ext[0] == 'callable' or _is_exception_name(ext_name):
+                        continue
+                    if ext_name not in PURE_EXTERNALS | {
                             'deque', 'WeakSet', 'SortedDict', 'SortedList', 'Flag',
-                            'WeakValueDictionary', '__init__'}:
+                            'WeakValueDictionary', 'WeakKeyDictionary', '__init__'}:
                         result = False
         self._pure[key] = result
         return result
